@@ -345,4 +345,62 @@ theorem winners_split (c : Cls) (pre post : List (Outcome α)) (w : Outcome α)
     simp [cls_beq_false hne]
   simp [this, cls_beq_true hw]
 
+/-! ## the join cuts nothing, at any length (round 6) -/
+
+theorem sep_length : sep.length = 2 := by decide
+
+/-- `", ".join` cuts nothing: the joined text is as long as all its parts and the separators between them -/
+theorem joinStrs_length : ∀ (l : List String),
+    (joinStrs l).length = (l.map String.length).sum + 2 * (l.length - 1)
+  | [] => by simp [joinStrs]
+  | [a] => by simp [joinStrs]
+  | a :: b :: rest => by
+    have ih := joinStrs_length (b :: rest)
+    simp only [joinStrs, String.length_append, ih, sep_length, List.map_cons, List.sum_cons, List.length_cons]
+    omega
+
+/-- every joined string is found, whole, inside the joined text -/
+theorem joinStrs_contains : ∀ (l : List String) (m : String), m ∈ l →
+    ∃ pre post, joinStrs l = pre ++ m ++ post
+  | [], m, h => by simp at h
+  | [a], m, h => by
+    have : m = a := by simpa using h
+    subst this
+    exact ⟨"", "", by simp [joinStrs]⟩
+  | a :: b :: rest, m, h => by
+    rcases List.mem_cons.1 h with e | h'
+    · subst e
+      exact ⟨"", sep ++ joinStrs (b :: rest), by simp [joinStrs, String.append_assoc]⟩
+    · obtain ⟨pre, post, e⟩ := joinStrs_contains (b :: rest) m h'
+      exact ⟨a ++ sep ++ pre, post, by simp [joinStrs, e, String.append_assoc]⟩
+
+theorem mem_truthyList : ∀ (ms : List (Option String)) (s : String),
+    s ∈ truthyList ms ↔ (some s ∈ ms ∧ s ≠ "")
+  | [], s => by simp [truthyList]
+  | none :: rest, s => by simp [truthyList, mem_truthyList rest s]
+  | some t :: rest, s => by
+    have ih := mem_truthyList rest s
+    by_cases ht : t = ""
+    · subst ht
+      simp only [truthyList, bne_self_eq_false, Bool.false_eq_true, ↓reduceIte, ih, List.mem_cons,
+        Option.some.injEq]
+      grind
+    · simp only [truthyList, bne_iff_ne, ne_eq, ht, not_false_eq_true, ↓reduceIte, List.mem_cons, ih,
+        Option.some.injEq]
+      grind
+
+/-- the merged message of the winners contains every non-empty winner message, whole -/
+theorem mergeMsgs_contains (ms : List (Option String)) (s : String) (h : some s ∈ ms) (hs : s ≠ "") :
+    ∃ t pre post, mergeMsgs ms = some t ∧ t = pre ++ s ++ post := by
+  match ms, h with
+  | [m], h =>
+    have : m = some s := by simpa [eq_comm] using h
+    subst this
+    exact ⟨s, "", "", rfl, by simp⟩
+  | [], h => simp at h
+  | a :: b :: rest, h =>
+    obtain ⟨pre, post, e⟩ := joinStrs_contains (truthyList (a :: b :: rest)) s
+      ((mem_truthyList _ s).2 ⟨h, hs⟩)
+    exact ⟨_, pre, post, rfl, e⟩
+
 end Koreo.Result
